@@ -1,0 +1,21 @@
+//go:build verif
+
+package integrity
+
+// Contracts checked by /verif/gocv (comment-only file; see /verif/DESIGN.md §3).
+
+//@ func verifyPartChecksums
+//@ ensures[C39:part-flagged-iff-mismatch] (err != nil) == specPartMismatch(part, calculated)
+
+// An object is judged by the rule of the write path that produced it: a plain (single PutObject) object carries the
+// MD5 and checksums of its one part; a multipart or appended object (ETag with a "-N" part count, any N >= 1) carries
+// the values CalculateMultipartChecksums derives from its parts.
+//@ func verifyObjectChecksums
+//@ requires len(parts) == len(partChecksums) && len(parts) >= 1
+//@ ensures[C39:plain-object-iff] len(parts) == 1 && !specMultipartShaped(object.ETag) ==>
+//@     (err != nil) == specObjectMismatch(object, partChecksums[0])
+//@ ensures[C39:multipart-object-iff] len(parts) > 1 || specMultipartShaped(object.ETag) ==>
+//@     called(checksumutils.CalculateMultipartChecksums) &&
+//@     (err != nil) == (result_of(checksumutils.CalculateMultipartChecksums, 1) != nil ||
+//@         specObjectMismatch(object, result_of(checksumutils.CalculateMultipartChecksums, 0)))
+//@ loop 0 invariant 0 <= i && i <= len(parts) && len(pChecksums) == len(parts)
